@@ -122,21 +122,6 @@ impl Router {
     pub(crate) fn register_handlers(&mut self, handlers: HandlerSet) {
         let HandlerSet { route, GET, PUT, POST, PATCH, DELETE } = handlers;
 
-        let methods = {
-            macro_rules! allow_methods {
-                ($($method:ident),*) => {{
-                    let mut methods = Vec::new();
-                    $(
-                        if $method.is_some() {
-                            methods.push(stringify!($method))
-                        }
-                    )*
-                    methods
-                }}
-            }
-            allow_methods! { GET, PUT, POST, PATCH, DELETE }
-        };
-
         macro_rules! register {
             ($( $method:ident ),*) => {$(
                 if let Some((handler, meta)) = $method {
@@ -154,6 +139,20 @@ impl Router {
         }
         register! { GET, PUT, POST, PATCH, DELETE }
 
+        self.register_default_options_handler(route);
+    }
+
+    /// (re)register the default OPTIONS handler of `route`
+    /// allowing all methods registered to the route so far
+    fn register_default_options_handler(&mut self, route: RouteSegments) {
+        let methods = match self.routes.get(&route) {
+            None => return,
+            Some(registered) => [Method::GET, Method::PUT, Method::POST, Method::PATCH, Method::DELETE]
+                .into_iter()
+                .filter(|m| registered.get(m).is_some())
+                .map(|m| m.as_str())
+                .collect::<Vec<_>>()
+        };
         self.OPTIONS.register_handler(
             route.into_iter(),
             Handler::default_options_with(methods),
@@ -198,6 +197,13 @@ impl Router {
         merge! {
             GET, PUT, POST, PATCH, DELETE,
             OPTIONS(allow_override_handler = true)
+        }
+
+        /* a merged route may have handlers of both: allow all of their methods */
+        for another_route in another_routes.routes.keys() {
+            self.register_default_options_handler(
+                RouteSegments::merged(route.clone(), another_route.clone())
+            );
         }
 
         crate::DEBUG!("merged: {self:#?}");
